@@ -323,6 +323,57 @@ Definition lmp_read (fixed : bool) (buf : list ascii) : option exn * list lmp_fr
   let r := run_lines (lmp_line fixed) lmp_init (readlines buf) in
   (res_exn r, rev (l_traj (res_state r)), l_pos (res_state r)).
 
+(* ------------------------------------------------------------------ decidable form of the
+   well-formedness hypotheses of the theorems (proofs/ReadersP.v: xyz_wf, lmp_wf); the
+   correspondence harness evaluates them on every generated file to count how many cases lie
+   inside the theorems' domain *)
+Definition cleanb (l : list ascii) : bool := forallb (fun c => negb (is_nl c)) l.
+
+Definition count_okb (N : nat) (cl : list ascii) : bool :=
+  match split cl with
+  | tk :: _ => match parse_int tk with Some n => n =? Z.of_nat N | None => false end
+  | [] => false
+  end.
+
+Definition xyz_atom_okb (a : list ascii) : bool :=
+  match split a with
+  | [_; t1; t2; t3] => fok t1 && fok t2 && fok t3
+  | _ => false
+  end.
+
+Definition xyz_wfb (N : nat) (f : list (list ascii)) : bool :=
+  match f with
+  | cl :: _ :: atoms =>
+    Nat.eqb (length atoms) N && forallb cleanb f && count_okb N cl && forallb xyz_atom_okb atoms
+  | _ => false
+  end.
+
+Definition lmp_box_okb (b : list ascii) : bool :=
+  let s := split b in (Nat.eqb (length s) 2 || Nat.eqb (length s) 3) && forallb fok s.
+
+Definition lmp_atom_okb (N : nat) (a : list ascii) : bool :=
+  let s := split a in
+  Nat.eqb (length s) 9 &&
+  (if list_eq_dec ascii_dec (hd [] s) (last s []) then true else false) &&
+  match parse_int (hd [] s) with Some id => (1 <=? id) && (id <=? Z.of_nat N) | None => false end &&
+  forallb fok (firstn 6 (skipn 2 s)).
+
+Fixpoint lmp_lines_okb (N : nat) (m : Z) (ls : list (list ascii)) : bool :=
+  match ls with
+  | [] => true
+  | l :: r =>
+    (if (5 <=? m) && (m <=? 7) then lmp_box_okb l else true) &&
+    (if 9 <=? m then lmp_atom_okb N l else true) && lmp_lines_okb N (m + 1) r
+  end.
+
+Definition lmp_wfb (N : nat) (f : list (list ascii)) : bool :=
+  match f with
+  | h0 :: _ :: _ :: cnt :: tail =>
+    negb (is_nil h0) && count_okb N cnt && forallb cleanb f &&
+    Nat.eqb (length tail) (N + 5) && lmp_lines_okb N 4 tail
+  | _ => false
+  end.
+
 (* ------------------------------------------------------------------ polling
    ReadAndProcessOnTheFly.read_and_process_content called repeatedly while the file
    grows: [file] is what the writer will eventually have written, each cut is the number
